@@ -265,6 +265,14 @@ func selfEmbed(c *fw.Ctx) {
 			for n := at - 9; n <= at+9; n++ {
 				c.Eval()
 				c.Distinct(fmt.Sprintf("%s|%d", name, n))
+				// the same prefix through a reader generated from a struct that lacks
+				// the file's last column (whether such a reader accepts the complete
+				// file at all is not C11's business; a prefix it must never accept)
+				if sut.Has("idonly") {
+					if msg := runPrefixOf(sut.Get("idonly"), file, n, 3); msg != "" {
+						c.Violate(fmt.Sprintf("idonly reader|self-embedded footer, cut at body+%d%+d|%s", m, n-at, classify(msg)), msg+fmt.Sprintf("\nworkload %s read with the reader of struct{ ID int32 } (the file has one more column)", name), "selfembed-idonly", tcase{name, n})
+					}
+				}
 				if msg := runPrefixOf(t, file, n, 3); msg != "" {
 					c.Violate(fmt.Sprintf("tailstr|self-embedded footer, cut at body+%d%+d|%s", m, n-at, classify(msg)), msg+fmt.Sprintf("\nworkload %s: the last page holds <pad><own footer, length, PAR1><tail>; the copy ends %d bytes into the page body, the file is cut %d bytes from there", name, m, n-at), "selfembed", tcase{name, n})
 				}
@@ -423,6 +431,9 @@ func replay(c *fw.Ctx, kind string, data json.RawMessage) string {
 		file, _, err := buildSelfEmbed(t, m, split)
 		if err != nil {
 			return "harness: " + err.Error()
+		}
+		if kind == "selfembed-idonly" {
+			return runPrefixOf(sut.Get("idonly"), file, tc.Len, 3)
 		}
 		return runPrefixOf(t, file, tc.Len, 3)
 	}
